@@ -5,7 +5,9 @@ package main
 import (
 	"encoding/binary"
 	"fmt"
+	"sort"
 	"strconv"
+	"strings"
 
 	"github.com/icon-project/goloop/network"
 )
@@ -24,6 +26,11 @@ func init() {
 }
 
 type c33Runner struct {
+	rnode    *network.VerifC33RelayNode
+	peerIDs  []uint64
+	peerCT   []uint64
+	peerHP   []bool
+	peerSeen []map[uint64]bool // hashes each peer has sent us (oracle bookkeeping)
 	pool *network.PacketPool
 	node *network.VerifC33Node
 	nb   int
@@ -42,6 +49,9 @@ func c33ID(n uint64) []byte {
 }
 
 func (r *c33Runner) curPool() *network.PacketPool {
+	if r.rnode != nil {
+		return r.rnode.Pool()
+	}
 	if r.node != nil {
 		return r.node.Pool()
 	}
@@ -82,7 +92,7 @@ func (r *c33Runner) Step(t []string, o *Oracle) string {
 		if !ok1 || !ok2 {
 			return "bad-op"
 		}
-		r.pool, r.node = nil, nil
+		r.pool, r.node, r.rnode = nil, nil, nil
 		r.nb, r.bl = int(nb), int(bl)
 		r.accepted, r.lastAcc = 0, map[uint64]int{}
 		if t[0] == "new" {
@@ -94,6 +104,116 @@ func (r *c33Runner) Step(t []string, o *Oracle) string {
 			r.node = network.VerifC33NewNode(c33ID(0), uint8(nb), uint16(bl))
 		}
 		return "ok"
+	case "rnode":
+		if len(t) != 4 {
+			return "bad-op"
+		}
+		nb, ok1 := u(t[1], 8)
+		bl, ok2 := u(t[2], 16)
+		role, ok3 := u(t[3], 8)
+		if !ok1 || !ok2 || !ok3 || nb == 0 {
+			return "bad-op"
+		}
+		r.pool, r.node = nil, nil
+		r.nb, r.bl = int(nb), int(bl)
+		r.accepted, r.lastAcc = 0, map[uint64]int{}
+		r.rnode = network.VerifC33NewRelayNode(c33ID(0), uint8(nb), uint16(bl), int(role))
+		r.peerIDs, r.peerCT, r.peerHP, r.peerSeen = nil, nil, nil, nil
+		return "ok"
+	case "peer":
+		if len(t) != 4 || r.rnode == nil {
+			return "bad-op"
+		}
+		id, ok1 := u(t[1], 16)
+		ct, ok2 := u(t[2], 8)
+		hp, ok3 := u(t[3], 1)
+		if !ok1 || !ok2 || !ok3 || id == 0 || ct >= 7 {
+			return "bad-op"
+		}
+		for _, x := range r.peerIDs {
+			if x == id {
+				return "bad-op"
+			}
+		}
+		idx := r.rnode.AddPeer(c33ID(id), int(ct), hp == 1)
+		r.peerIDs = append(r.peerIDs, id)
+		r.peerCT = append(r.peerCT, ct)
+		r.peerHP = append(r.peerHP, hp == 1)
+		r.peerSeen = append(r.peerSeen, map[uint64]bool{})
+		return fmt.Sprintf("ok %d", idx)
+	case "rpkt":
+		if len(t) != 8 || r.rnode == nil {
+			return "bad-op"
+		}
+		idx, o1 := u(t[1], 16)
+		role, o2 := u(t[2], 8)
+		src, o3 := u(t[3], 16)
+		dest, o4 := u(t[4], 8)
+		ttl, o5 := u(t[5], 8)
+		hash, o6 := u(t[6], 64)
+		rel, o7 := u(t[7], 1)
+		if !(o1 && o2 && o3 && o4 && o5 && o6 && o7) || int(idx) >= len(r.peerIDs) || hash == 0 {
+			return "bad-op"
+		}
+		r.peerSeen[idx][hash] = true
+		res, relayed := r.rnode.OnPacketFrom(int(idx), int(role), c33ID(src), byte(dest), byte(ttl), hash, rel == 1)
+		o.Count("rpkt-" + res)
+		peer := r.peerIDs[idx]
+		oneHop := ttl != 0 || dest == 0xFF
+		if res == "deliver" {
+			o.Check(!oneHop || peer == src, "c33-onehop-from-non-source", "one-hop packet src=%d delivered from peer %d", src, peer)
+			o.Check(!(dest == 0 && ttl == 0 && peer == src) || role&2 == 2, "c33-broadcast-origin-without-root-role", "originator broadcast from peer %d role %d delivered", peer, role)
+			o.Check(src != 0, "c33-self-src-delivered", "packet with own id as source delivered")
+			if !oneHop {
+				r.accept(hash, o, "flood")
+			}
+		}
+		o.Check(res != "deliver-again-by-relay", "c33-relay-duplicates-delivery", "relaying handed the packet to the application again")
+		o.Check(res != "deliver-wrong" && res != "drop-unknown", "c33-unclassified-outcome", "outcome %s", res)
+		// relays: only after a flooded delivery the reactor wanted relayed; never to the source,
+		// the sender, or a peer that already sent us this hash; only to peers with the protocol
+		o.Check(len(relayed) == 0 || (res == "deliver" && rel == 1 && !oneHop), "c33-relay-without-flood-delivery", "relayed to %v after %s", relayed, res)
+		ids := make([]int, 0, len(relayed))
+		for _, i := range relayed {
+			o.Check(r.peerIDs[i] != src, "c33-relay-to-source", "relayed to the packet's source %d", src)
+			o.Check(i != int(idx), "c33-relay-back-to-sender", "relayed back to sender %d", peer)
+			o.Check(!r.peerSeen[i][hash], "c33-relay-to-peer-that-has-it", "relayed hash %d to peer %d that sent it before", hash, r.peerIDs[i])
+			o.Check(r.peerHP[i], "c33-relay-to-peer-without-protocol", "relayed to peer %d without the protocol", r.peerIDs[i])
+			ids = append(ids, int(r.peerIDs[i]))
+		}
+		if len(relayed) > 0 {
+			o.Count("relayed")
+			o.Count(fmt.Sprintf("relay-fanout=%d", len(relayed)))
+		}
+		sort.Ints(ids)
+		rs := "-"
+		if len(ids) > 0 {
+			ss := make([]string, len(ids))
+			for i, v := range ids {
+				ss[i] = strconv.Itoa(v)
+			}
+			rs = strings.Join(ss, ",")
+		}
+		return res + " " + rs
+	case "cpkt":
+		if len(t) != 4 || (r.node == nil && r.rnode == nil) {
+			return "bad-op"
+		}
+		hp, o1 := u(t[1], 1)
+		ver, o2 := u(t[2], 8)
+		sub, o3 := u(t[3], 16)
+		if !o1 || !o2 || !o3 {
+			return "bad-op"
+		}
+		n := r.node
+		if r.rnode != nil {
+			n = r.rnode.VerifC33Node
+		}
+		res := n.OnControl(hp == 1, byte(ver), uint16(sub))
+		o.Count("cpkt-" + res)
+		o.Check(res != "deliver" && res != "pool-touched", "c33-control-packet-reached-application", "control packet: %s", res)
+		o.Check(res != "control-unknown", "c33-unclassified-outcome", "outcome %s", res)
+		return res
 	case "put", "has":
 		p := r.curPool()
 		if len(t) != 2 || p == nil {
@@ -296,12 +416,74 @@ func c33GenNode(g *Gen) {
 	g.Emit("state")
 }
 
+// relay cases: persistent peers of several connection types, the same packet
+// arriving through several of them, before and after the pool forgets it
+func c33GenRelay(g *Gen) {
+	nb := g.Pick(2, 3, 3, 4)
+	bl := g.Pick(1, 2, 2, 3)
+	selfRole := g.Pick(0, 0, 1, 2, 2, 3)
+	g.Emit("rnode %d %d %d", nb, bl, selfRole)
+	np := 2 + g.Intn(6)
+	friends := 0
+	for i := 0; i < np; i++ {
+		ct := g.Pick(1, 2, 2, 2, 3, 4, 5, 5, 6, 6, 0)
+		if ct == 5 {
+			if friends == 3 {
+				ct = 2 // at most three friends (selective flooding then takes all of them)
+			} else {
+				friends++
+			}
+		}
+		hp := 1
+		if g.Intn(10) == 0 {
+			hp = 0
+		}
+		g.Emit("peer %d %d %d", i+1, ct, hp)
+	}
+	window := (nb - 1) * bl
+	steps := 15 + g.Intn(60)
+	fresh := uint64(1000)
+	var recent []string
+	for i := 0; i < steps; i++ {
+		if g.Intn(12) == 0 {
+			g.Emit("cpkt %d %d %d", g.Pick(1, 1, 1, 0), g.Pick(0, 0, 0, 1), g.Pick(0x0700, 0x0800, 0x0900, 0x0A00, 0x0B00, 0x0C00, 0x0100, 0x0D00, g.Intn(65536)))
+			continue
+		}
+		idx := g.Intn(np)
+		if len(recent) > 0 && g.Intn(5) < 2 {
+			// the same packet again through another (or the same) peer
+			g.Emit("rpkt %d %s", idx, recent[g.Intn(len(recent))])
+			continue
+		}
+		src := g.Pick(idx+1, idx+1, 50, 51, 1+g.Intn(np), 0)
+		dest := g.Pick(0, 0, 0, 0, 1, 2, 2, 0xFF, 7)
+		ttl := g.Pick(0, 0, 0, 0, 0, 1, 2)
+		role := g.Pick(0, 1, 2, 2, 3)
+		fresh++
+		hash := fresh
+		if g.Intn(4) == 0 {
+			hash = 1000 + uint64(g.Intn(window+3)) + 1
+		}
+		rel := g.Pick(1, 1, 1, 0)
+		body := fmt.Sprintf("%d %d %d %d %d %d", role, src, dest, ttl, hash, rel)
+		recent = append(recent, body)
+		if len(recent) > window+3 {
+			recent = recent[1:]
+		}
+		g.Emit("rpkt %d %s", idx, body)
+	}
+	g.Emit("state")
+}
+
 func c33Gen(g *Gen) {
 	for c := 0; c < g.N; c++ {
-		if g.Intn(2) == 0 {
+		switch g.Intn(5) {
+		case 0, 1:
 			c33GenPool(g)
-		} else {
+		case 2:
 			c33GenNode(g)
+		default:
+			c33GenRelay(g)
 		}
 		g.Emit("reset")
 	}
